@@ -2132,7 +2132,7 @@ pub fn run(args: &Args) -> i32 {
     let t = args.thorough;
     let ack_rule = |what: &str| {
         format!(
-            "{what}: histories (sent, acked) ∈ {}; Largest ∈ B_near ∪ {{n-2..n+1, a-1..a+1}} (∪ B_far for some histories: sent journal {}, others {}), First Range ∈ B_near ∪ {{L-1,L,L+1}} (∪ B_far), Delay ∈ {{0, 16384, 2^62-1}}, 0–2 further ranges with gap/length around the remaining numbers (exact fit, one below zero) and over B; far gap/length products below a valid and below the largest possible Largest; B = {{0,1,63,64,16383,16384,2^30-1,2^30,2^31-1,2^31,2^32,2^61,2^62-1}} (quick: far values {{2^30, 2^62-1}})",
+            "{what}: histories (sent, acked) ∈ {}; Largest ∈ B_near ∪ {{n-2..n+1, a-1..a+1}} (∪ B_far for some histories: sent journal {}, others {}), First Range ∈ B_near ∪ {{L-1,L,L+1}} (∪ B_far), Delay ∈ {{0, 16384, 2^62-1}}, 0–2 further ranges with gap/length around the remaining numbers (exact fit, one below zero) and over B; far gap/length products below a valid and below the largest possible Largest; B = {{0,1,63,64,16383,16384,2^30-1,2^30,2^31-1,2^31,2^32,2^61,2^62-1}} (quick: far values {{2^30, 2^62-1}}; far ACKs for on_rcvd_ack / cc whose ranges stay above zero run in the checked profile only)",
             if t { "{(0,0),(1,0),(2,0),(3,0),(3,1),(3,2)}" } else { "{(0,0),(1,0),(3,0),(3,1)}" },
             if t { "(0,0),(2,0),(3,0),(3,1)" } else { "(0,0),(3,1)" },
             if t { "(0,0),(2,0),(3,0),(3,1)" } else { "(3,1)" }
@@ -2161,7 +2161,15 @@ pub fn run(args: &Args) -> i32 {
             } else {
                 child.push(Item { sub: si, case: c.clone(), exe: Some(0) });
             }
-            if s.with_prod && prod.is_some() {
+            // quick tier: a far ACK whose ranges stay above zero behaves the same with and without
+            // overflow checks (same loop, same 3 s watchdog): not repeated in the prod profile
+            let prod_adds = match c {
+                Case::Ack { target, largest, first, ranges, .. } => {
+                    t || *target == Tgt::Sent || far_fields(c).is_empty() || ack_negative(*largest, *first, ranges)
+                }
+                _ => true,
+            };
+            if s.with_prod && prod.is_some() && prod_adds {
                 child.push(Item { sub: si, case: c.clone(), exe: Some(1) });
             }
         }
